@@ -342,10 +342,32 @@ def for_loops(root):
     return out
 
 
+def diverges(n, facts=None):
+    """True if evaluating the node never falls through (ends in break/continue/return/panic)."""
+    k = n.get("k")
+    if k in ("Break", "Continue", "Return"):
+        return True
+    if k in ("NeverToAny", "Use"):
+        return diverges(n["e"], facts)
+    if k == "Block":
+        for s in n["ss"]:
+            if s.get("k") != "LetStmt" and diverges(s, facts):
+                return True
+        return "e" in n and diverges(n["e"], facts)
+    if k == "If":
+        return "el" in n and diverges(n["th"], facts) and diverges(n["el"], facts)
+    if k == "Match":
+        return bool(n["arms"]) and all(diverges(a["b"], facts) for a in n["arms"])
+    if k == "Call" and "f" in n:
+        return n["f"].startswith(("core::panicking::", "std::rt::begin_panic", "core::panic", "std::process::exit", "std::rt::panic")) or n["n"] in ("panic_fmt", "unreachable_display", "panic_display")
+    return False
+
+
 def paths_to(root, pred):
     """For every node satisfying pred: (node, conds) where conds is the list of branch
-    decisions on the tree path from root: ('if', cond_node, True|False),
-    ('arm', match_node, arm), ('loop', loop_node)."""
+    decisions that hold when the node is reached: ('if', cond_node, True|False),
+    ('arm', match_node, arm), ('letelse', letstmt, True). Guard clauses are included: after
+    `if c { continue }` the rest of the block is reached only with c false."""
     out = []
 
     def rec(n, conds):
@@ -371,10 +393,30 @@ def paths_to(root, pred):
             rec(n["l"], conds)
             rec(n["r"], conds + [("if", n["l"], n["o"] == "And")])
             return
-        if k == "LetStmt" and "els" in n:
+        if k == "Block":
+            cur = list(conds)
+            for s in n["ss"]:
+                rec(s, cur)
+                sp = s
+                while sp.get("k") in ("Use", "NeverToAny"):
+                    sp = sp["e"]
+                if sp.get("k") == "LetStmt" and "els" in sp:
+                    cur = cur + [("letelse", sp, True)]
+                elif sp.get("k") == "If":
+                    th_div = diverges(sp["th"])
+                    el_div = "el" in sp and diverges(sp["el"])
+                    if th_div and not el_div:
+                        cur = cur + [("if", sp["c"], False)]
+                    elif el_div and not th_div:
+                        cur = cur + [("if", sp["c"], True)]
+            if "e" in n:
+                rec(n["e"], cur)
+            return
+        if k == "LetStmt":
             if "i" in n:
                 rec(n["i"], conds)
-            rec(n["els"], conds + [("letelse", n, False)])
+            if "els" in n:
+                rec(n["els"], conds + [("letelse", n, False)])
             return
         for c in children(n):
             rec(c, conds)
